@@ -326,17 +326,27 @@ int RowsMain(const std::string& path, uint64_t seed)
         }
         std::vector<Lin> topo_inputs, other_inputs;
         for (size_t k = 0; k < row["orders"].size(); ++k) topo_inputs.push_back(LinFromJson(row["orders"][k]));
-        // not claimed topological: the first and last listed order, their reversals, and a seeded shuffle
-        Rng rng(Mix(seed) ^ Mix(nline));
-        if (!topo_inputs.empty()) {
+        // not claimed topological: every permutation of up to 4 transactions (some are topological, most are not: the
+        // specification decides which clauses apply); for larger clusters the first and last listed order, their
+        // reversals and seeded shuffles
+        // all randomness of a row derives from the seed and the row's content (not from its position in a shard)
+        uint64_t h = 1469598103934665603ULL;
+        for (unsigned char ch : row.write()) h = (h ^ ch) * 1099511628211ULL;
+        Rng rng(Mix(seed) ^ Mix(h));
+        if (c.n <= 4) {
+            Lin p; for (int i = 1; i <= c.n; ++i) p.push_back(i);
+            do { other_inputs.push_back(p); } while (std::next_permutation(p.begin(), p.end()));
+        } else if (!topo_inputs.empty()) {
             other_inputs.push_back(topo_inputs.front());
             other_inputs.push_back(Lin(topo_inputs.front().rbegin(), topo_inputs.front().rend()));
             other_inputs.push_back(Lin(topo_inputs.back().rbegin(), topo_inputs.back().rend()));
-            Lin sh = topo_inputs[rng.below(topo_inputs.size())];
-            for (size_t i = sh.size(); i > 1; --i) std::swap(sh[i - 1], sh[rng.below(i)]);
-            other_inputs.push_back(sh);
+            for (int k = 0; k < 6; ++k) {
+                Lin sh = topo_inputs[rng.below(topo_inputs.size())];
+                for (size_t i = sh.size(); i > 1; --i) std::swap(sh[i - 1], sh[rng.below(i)]);
+                other_inputs.push_back(sh);
+            }
         }
-        Process(c, maps, topo_inputs, other_inputs, Mix(seed * 1000003 + nline), 2, "row", out);
+        Process(c, maps, topo_inputs, other_inputs, Mix(seed * 1000003 + h), 2, "row", out);
         ++R().tests; ++R().steps;
     });
     out.close();
@@ -381,8 +391,10 @@ void DriveJob(uint64_t seed, int count, int nmin, int nmax, std::ostream& out)
             }
             c.par.emplace_back(ps.begin(), ps.end());
         }
-        // values: 0 small mixed, 1 all the same feerate (different sizes), 2 many zero fees, 3 with negative fees, 4 wide range
-        const int vals = (int)rng.below(5);
+        // values: 0 small mixed, 1 all the same feerate (different sizes), 2 many zero fees, 3 with negative fees, 4 wide range,
+        // 5 paying leaves over (mostly) zero-fee ancestors (chunks that need several splits; half of the small clusters)
+        const bool small = c.n <= 8;
+        const int vals = small ? (rng.below(2) ? 5 : (int)rng.below(5)) : (int)rng.below(6);
         const int maxsize = c.n > 8 ? 50 : 6;
         const int maxfee = c.n > 8 ? 500 : 12;
         for (int i = 0; i < c.n; ++i) {
@@ -392,6 +404,7 @@ void DriveJob(uint64_t seed, int count, int nmin, int nmax, std::ostream& out)
             else if (vals == 1) fee = 3 * sz;
             else if (vals == 2) fee = rng.below(3) ? 0 : (int64_t)rng.below(6);
             else if (vals == 3) fee = (int64_t)rng.below(9) - 3;
+            else if (vals == 5) { bool leaf = true; for (int j = i + 1; j < c.n; ++j) for (int p : c.par[j]) leaf = leaf && p != i + 1; fee = leaf ? 1 + (int64_t)rng.below(9) : (rng.below(10) < 7 ? 0 : (int64_t)rng.below(3)); }
             else fee = (int64_t)rng.below(maxfee + 1);
             c.fee.push_back(fee); c.size.push_back(sz);
         }
